@@ -8,6 +8,12 @@ package props
 // parser + compiler load it; the case records what the public accessors return for the leaf at
 // every place it ends up. Coq (Check/C02Check.v) runs the model and the RFC oracle on the same
 // abstract input and classifies.
+//
+// About a third of the module sets also hold a SIBLING SCOPE (c02Twin): a second container next to
+// the leaf's parent b (or next to b's parent a) with typedefs that reuse the names of typedefs of
+// the scopes it is not nested in (legal: RFC 7950 5.5 only forbids a name along one ancestor chain)
+// but define something else, and a leaf y naming them. It is written before or after its sibling.
+// Such a set yields two cases, one per leaf, each judged against its own lexical frames.
 
 import (
 	"fmt"
@@ -213,6 +219,20 @@ type c02Scenario struct {
 	tgtSibList bool
 	tgtTop     *c02Stmt // type of top-level leaf "top" in m
 	tgtTopList bool
+	twin       *c02Twin
+}
+
+// a sibling scope: container c inside a (level 0, sibling of b) or container a2 next to a (level 1),
+// holding its own typedefs and leaf y
+type c02Twin struct {
+	level    int
+	before   bool // written (and so compiled) before the container it is a sibling of
+	tds      []*c02Typedef
+	reused   int // typedefs whose name also exists in a scope the twin is not nested in
+	leafList bool
+	leafType *c02Stmt
+	leafDef  []string
+	leafUnit string
 }
 
 func (s *c02Scenario) fresh(p string) string {
@@ -292,6 +312,14 @@ func (s *c02Scenario) chain(depth int, builtin string, per func(level int, st *c
 		return p
 	}
 	sort.Slice(places, func(i, j int) bool { return rank(places[i]) < rank(places[j]) })
+	if s.twin != nil && depth > 0 && s.r.Chance(3, 4) {
+		// a sibling scope will be generated: let the chain start in a scope that has a sibling
+		if s.twin.level == 1 && places[0] != plLocal && s.r.Bool() {
+			places[0] = plAncestor
+		} else {
+			places[0] = plLocal
+		}
+	}
 	stmts := make([]*c02Stmt, depth+1)
 	for i := range stmts {
 		stmts[i] = &c02Stmt{}
@@ -746,6 +774,150 @@ func (s *c02Scenario) genPlain() {
 	s.leafType = s.chain(s.depth(), b, func(level int, st *c02Stmt, isBase bool) {}, func() string { return "true" })
 }
 
+// ---- sibling scope ----------------------------------------------------------------------------------
+
+// a statement for a twin typedef: a restricted built-in, or a typedef of an enclosing scope that
+// the twin sees too (none of these can be a name the twin redefines)
+func (s *c02Scenario) twinType() (st *c02Stmt, dflt string) {
+	type outer struct {
+		place int
+		td    *c02Typedef
+	}
+	var outers []outer
+	add := func(place int, tds []*c02Typedef) {
+		for _, td := range tds {
+			outers = append(outers, outer{place, td})
+		}
+	}
+	if s.twin.level == 0 {
+		add(plAncestor, s.frames[plAncestor])
+	}
+	if s.grouping {
+		add(plGrouping, s.frames[plGrouping])
+	}
+	if s.home == 0 {
+		add(plModule, s.mTop)
+		add(plSub, s.mSub)
+		if !s.noImport {
+			add(plImport, s.iTop)
+		}
+	} else {
+		add(plModule, s.iTop)
+	}
+	switch k := s.r.Intn(6); {
+	case k == 0 && len(outers) > 0:
+		o := gen.Pick(s.r, outers)
+		return &c02Stmt{Ident: s.ref(plLocal, o.place, o.td.Name)}, ""
+	case k <= 1:
+		st = &c02Stmt{Ident: "string"}
+		if s.r.Bool() {
+			st.Lengths = []string{fmt.Sprintf("%d..%d", 1+s.r.Intn(3), 60+s.r.Intn(9))}
+		}
+		if s.r.Chance(1, 3) {
+			st.Patterns = []c02Pat{{"[a-w]*", false}}
+		}
+		return st, "twin"
+	case k == 2:
+		es := s.genValued("w", false)
+		return &c02Stmt{Ident: "enumeration", Enums: es}, es[0].Name
+	case k == 3:
+		return &c02Stmt{Ident: "boolean"}, "false"
+	case k == 4:
+		return &c02Stmt{Ident: "decimal64", FD: 1 + s.r.Intn(6), Ranges: []string{"1.5..77.5"}}, "2.5"
+	default:
+		st = &c02Stmt{Ident: gen.Pick(s.r, c02Ints)}
+		if s.r.Chance(2, 3) {
+			st.Ranges = []string{fmt.Sprintf("%d..%d", 1+s.r.Intn(5), 100+s.r.Intn(20))}
+		}
+		return st, fmt.Sprint(7 + s.r.Intn(9))
+	}
+}
+
+// genTwin fills the sibling scope once the leaf under test and its typedefs exist
+func (s *c02Scenario) genTwin() {
+	t := s.twin
+	cands := append([]*c02Typedef{}, s.frames[plLocal]...)
+	if t.level == 1 {
+		cands = append(cands, s.frames[plAncestor]...)
+	}
+	for _, c := range cands {
+		if !s.r.Chance(3, 4) {
+			continue
+		}
+		st, d := s.twinType()
+		td := &c02Typedef{Name: c.Name, Type: st}
+		if d != "" && s.r.Chance(1, 2) {
+			td.Default = &d
+		}
+		if s.r.Chance(1, 2) {
+			td.Units = s.fresh("v")
+		}
+		t.tds = append(t.tds, td)
+		t.reused++
+	}
+	if len(t.tds) == 0 || s.r.Chance(1, 4) {
+		// a name of its own (also keeps the twin leaf meaningful when nothing is reused)
+		st, d := s.twinType()
+		td := &c02Typedef{Name: s.fresh("t"), Type: st}
+		if d != "" && s.r.Chance(1, 2) {
+			td.Default = &d
+		}
+		t.tds = append(t.tds, td)
+	}
+	if s.r.Bool() { // order inside the scope does not matter to the RFC
+		t.tds[0], t.tds[len(t.tds)-1] = t.tds[len(t.tds)-1], t.tds[0]
+	}
+	// leaf y names a typedef of the twin; prefer a reused name
+	pick := t.tds[s.r.Intn(len(t.tds))]
+	if t.reused > 0 {
+		for try := 0; try < 4 && s.isFreshTwinName(pick.Name); try++ {
+			pick = t.tds[s.r.Intn(len(t.tds))]
+		}
+	}
+	t.leafType = &c02Stmt{Ident: s.ref(plLocal, plLocal, pick.Name)}
+	t.leafList = s.r.Chance(1, 4)
+	if s.r.Chance(1, 5) {
+		t.leafUnit = "twinunit"
+	}
+}
+
+// statistics only: does the chain of x (resp. the type of y) go through a name that both sibling
+// scopes define
+func (s *c02Scenario) twinCollision() (xHit, yHit bool) {
+	twinHas := func(ref string) bool {
+		name := ref[strings.IndexByte(ref, ':')+1:]
+		for _, td := range s.twin.tds {
+			if td.Name == name {
+				return true
+			}
+		}
+		return false
+	}
+	st := s.leafType
+	for {
+		if _, builtin := val.TypeAsFormat(st.Ident); builtin {
+			break
+		}
+		td, pl := s.findTd(st.Ident)
+		if pl <= plAncestor && twinHas(st.Ident) {
+			xHit = true
+		}
+		st = td.Type
+	}
+	return xHit, !s.isFreshTwinName(s.twin.leafType.Ident[strings.IndexByte(s.twin.leafType.Ident, ':')+1:])
+}
+
+func (s *c02Scenario) isFreshTwinName(name string) bool {
+	for pl := 0; pl < 2; pl++ {
+		for _, td := range s.frames[pl] {
+			if td.Name == name {
+				return false
+			}
+		}
+	}
+	return true
+}
+
 // ---- rendering ------------------------------------------------------------------------------------
 
 func c02RenderIdents(ids []c02Ident, ind string) string {
@@ -789,14 +961,48 @@ func c02RenderTarget(name string, st *c02Stmt, isList bool, ind string) string {
 	return fmt.Sprintf("%s%s %s {\n%s%s}\n", ind, kw, name, st.render(ind+"  "), ind)
 }
 
-// the data nodes: container a { typedefs; container b { typedefs; leaf tgt; leaf x } }
+func (s *c02Scenario) renderTwin(ind string) string {
+	t := s.twin
+	var b strings.Builder
+	name := "c"
+	if t.level == 1 {
+		name = "a2"
+	}
+	kw := "leaf"
+	if t.leafList {
+		kw = "leaf-list"
+	}
+	fmt.Fprintf(&b, "%scontainer %s {\n%s", ind, name, c02RenderTds(t.tds, ind+"  "))
+	fmt.Fprintf(&b, "%s  %s y {\n%s", ind, kw, t.leafType.render(ind+"    "))
+	for _, d := range t.leafDef {
+		fmt.Fprintf(&b, "%s    default \"%s\";\n", ind, d)
+	}
+	if t.leafUnit != "" {
+		fmt.Fprintf(&b, "%s    units %s;\n", ind, t.leafUnit)
+	}
+	fmt.Fprintf(&b, "%s  }\n%s}\n", ind, ind)
+	return b.String()
+}
+
+// the data nodes: container a { typedefs; container b { typedefs; leaf tgt; leaf x } }, with the
+// sibling scope (if any) as container c next to b or container a2 next to a
 func (s *c02Scenario) renderBody(ind string) string {
 	var b strings.Builder
-	fmt.Fprintf(&b, "%scontainer a {\n%s%s  container b {\n%s", ind, c02RenderTds(s.frames[plAncestor], ind+"  "),
-		ind, c02RenderTds(s.frames[plLocal], ind+"    "))
+	at := func(level int, before bool, ind string) {
+		if s.twin != nil && s.twin.level == level && s.twin.before == before {
+			b.WriteString(s.renderTwin(ind))
+		}
+	}
+	at(1, true, ind)
+	fmt.Fprintf(&b, "%scontainer a {\n%s", ind, c02RenderTds(s.frames[plAncestor], ind+"  "))
+	at(0, true, ind+"  ")
+	fmt.Fprintf(&b, "%s  container b {\n%s", ind, c02RenderTds(s.frames[plLocal], ind+"    "))
 	b.WriteString(c02RenderTarget("tgt", s.tgtSibling, s.tgtSibList, ind+"    "))
 	b.WriteString(s.renderLeaf(ind + "    "))
-	fmt.Fprintf(&b, "%s  }\n%s}\n", ind, ind)
+	fmt.Fprintf(&b, "%s  }\n", ind)
+	at(0, false, ind+"  ")
+	fmt.Fprintf(&b, "%s}\n", ind)
+	at(1, false, ind)
 	return b.String()
 }
 
@@ -877,6 +1083,35 @@ func (s *c02Scenario) leafFrames() [][]*c02Typedef {
 	return fr
 }
 
+// the sibling scope: its container's path, the leaf's lexical frames, the leaf
+func (s *c02Scenario) twinPath() []string {
+	if s.twin.level == 0 {
+		return []string{"u1", "a", "c"}
+	}
+	return []string{"u1", "a2"}
+}
+
+func (s *c02Scenario) twinPosTerm() string {
+	items := []string{emit.Pair(emit.Some(c02Path(s.twinPath()...)), c02Frame(s.twin.tds))}
+	if s.twin.level == 0 {
+		items = append(items, emit.Pair(emit.Some(c02Path("u1", "a")), c02Frame(s.frames[plAncestor])))
+	}
+	if s.grouping {
+		items = append(items, emit.Pair("None", c02Frame(s.frames[plGrouping])))
+	}
+	return emit.Pair(emit.Nat(s.home), emit.List(items))
+}
+
+func (s *c02Scenario) twinLeafTerm() string {
+	t := s.twin
+	d := "None"
+	if t.leafDef != nil {
+		d = emit.Some(c02Strs(t.leafDef))
+	}
+	return emit.App("mkLeaf", s.twinPosTerm(), c02Path(append(s.twinPath(), "y")...), emit.Bool(t.leafList),
+		t.leafType.term(), d, emit.Str(t.leafUnit))
+}
+
 func (s *c02Scenario) envTerm() string {
 	mTds := append(append([]*c02Typedef{}, s.mTop...), s.mSub...)
 	mods := emit.List([]string{
@@ -892,14 +1127,20 @@ func (s *c02Scenario) envTerm() string {
 		tb = "true"
 	}
 	lf := s.leafFrames()
-	tree := emit.List([]string{
+	nodes := []string{
 		emit.Pair(c02Path("u1"), "TCont"),
 		emit.Pair(c02Path("u1", "a"), "TCont"),
 		emit.Pair(c02Path("u1", "a", "b"), "TCont"),
 		emit.Pair(c02Path("u1", "a", "b", "tgt"), emit.App("TLeaf", lb, s.posTerm(lf...), s.tgtSibling.term())),
 		emit.Pair(c02Path("top"), emit.App("TLeaf", tb, emit.Pair("0%nat", "[]"), s.tgtTop.term())),
-	})
-	return emit.App("mkEnv", mods, tree)
+	}
+	if s.twin != nil {
+		nodes = append(nodes,
+			emit.Pair(c02Path(s.twinPath()...), "TCont"),
+			emit.Pair(c02Path(append(s.twinPath(), "y")...),
+				emit.App("TLeaf", emit.Bool(s.twin.leafList), s.twinPosTerm(), s.twin.leafType.term())))
+	}
+	return emit.App("mkEnv", mods, emit.List(nodes))
 }
 
 func (s *c02Scenario) leafTerm() string {
@@ -1034,25 +1275,31 @@ func c02Opener(files map[string]string) func(string, string) (io.Reader, error) 
 	}
 }
 
-// returns the observed term and a description
-func (s *c02Scenario) observe(files map[string]string) (term string, desc interface{}, class string) {
+// loads the module set; a failure (or panic) is the observation of every leaf of the set
+func c02Load(files map[string]string) (m *meta.Module, term string, desc interface{}, class string) {
+	defer func() {
+		if r := recover(); r != nil {
+			m, term, desc, class = nil, "OPanic", fmt.Sprintf("panic: %v", r), "panic"
+		}
+	}()
+	m, err := parser.LoadModule(c02Opener(files), "m")
+	if err != nil {
+		return nil, "OError", "error: " + err.Error(), "error"
+	}
+	return m, "", nil, "loaded"
+}
+
+// what the accessors return for the leaf at u<k>/<rel> for each of the n uses
+func c02ObserveLeaf(m *meta.Module, rel string, n int) (term string, desc interface{}, class string) {
 	defer func() {
 		if r := recover(); r != nil {
 			term, desc, class = "OPanic", fmt.Sprintf("panic: %v", r), "panic"
 		}
 	}()
-	m, err := parser.LoadModule(c02Opener(files), "m")
-	if err != nil {
-		return "OError", "error: " + err.Error(), "error"
-	}
 	var leaves []c02ObsLeaf
 	var terms []string
-	n := 1
-	if s.grouping {
-		n = s.uses
-	}
 	for k := 1; k <= n; k++ {
-		where := fmt.Sprintf("u%d/a/b/x", k)
+		where := fmt.Sprintf("u%d/%s", k, rel)
 		d := meta.Find(m, where)
 		l, ok := d.(meta.Leafable)
 		if !ok {
@@ -1092,6 +1339,9 @@ func c02Gen(r *gen.Rng, forceKind string) *c02Scenario {
 		s.uses = 1 + r.Intn(3)
 	}
 	s.leafList = r.Chance(1, 4)
+	if r.Chance(1, 3) {
+		s.twin = &c02Twin{level: r.Intn(2), before: r.Bool()}
+	}
 	// leafref targets (always present)
 	s.tgtSibling = &c02Stmt{Ident: gen.Pick(r, c02Ints)}
 	s.tgtTop = &c02Stmt{Ident: "string"}
@@ -1148,12 +1398,15 @@ func c02Gen(r *gen.Rng, forceKind string) *c02Scenario {
 	if r.Chance(1, 3) {
 		s.leafUnit = "leafunit"
 	}
+	if s.twin != nil {
+		s.genTwin()
+	}
 	return s
 }
 
 func C02(ctx *core.Ctx) error {
 	ctx.Imports = "Typed.Model Typed.Spec Check.C02Check"
-	ctx.Rule = "a case is non-trivial when the leaf's type names at least one typedef, or is a union, leafref, identityref, enumeration or bits, or the enclosing grouping is used more than once"
+	ctx.Rule = "a case is non-trivial when the leaf's type names at least one typedef, or is a union, leafref, identityref, enumeration or bits, or the enclosing grouping is used more than once (the leaf of a sibling scope always names a typedef)"
 	c02Hist = ctx.Count
 	defer func() { c02Hist = nil }()
 	r := gen.New(ctx.Seed)
@@ -1164,13 +1417,16 @@ func C02(ctx *core.Ctx) error {
 	for k := 0; k < n; k++ {
 		s := c02Gen(r.Fork(uint64(k)), "")
 		files := s.files()
-		obs, odesc, class := s.observe(files)
 		uses := 1
 		if s.grouping {
 			uses = s.uses
 		}
+		m, obs, odesc, class := c02Load(files)
+		if m != nil {
+			obs, odesc, class = c02ObserveLeaf(m, "a/b/x", uses)
+		}
 		term := emit.App("CLeaf", s.envTerm(), s.leafTerm(), emit.Nat(uses), obs)
-		desc := map[string]interface{}{"kind": s.kind, "uses": uses, "files": files, "observed": odesc}
+		desc := map[string]interface{}{"kind": s.kind, "leaf": "a/b/x", "uses": uses, "files": files, "observed": odesc}
 		_, builtin := val.TypeAsFormat(s.leafType.Ident)
 		nontrivial := !builtin || uses > 1 || s.kind != "numeric" && s.kind != "string" && s.kind != "plain" && s.kind != "decimal64"
 		ctx.Add(term, desc, nontrivial)
@@ -1186,6 +1442,30 @@ func C02(ctx *core.Ctx) error {
 		}
 		if s.leafList {
 			ctx.Count("leaf-list")
+		}
+		if t := s.twin; t != nil {
+			ctx.Count(fmt.Sprintf("sibling-scope level=%d before=%v", t.level, t.before))
+			if t.reused > 0 {
+				ctx.Count("sibling-scope reusing a typedef name")
+			}
+			xHit, yHit := s.twinCollision()
+			if xHit {
+				ctx.Count("sibling-scope: name in the chain of x redefined next door")
+			}
+			if yHit {
+				ctx.Count("sibling-scope: name used by y redefined next door")
+			}
+			// the second leaf of the set, judged against its own frames. When the set does not load,
+			// the case of x above already judges the failure (y's own chain is always loadable).
+			if m != nil {
+				rel := strings.Join(append(s.twinPath()[1:], "y"), "/")
+				tobs, tdesc, tclass := c02ObserveLeaf(m, rel, uses)
+				tterm := emit.App("CLeaf", s.envTerm(), s.twinLeafTerm(), emit.Nat(uses), tobs)
+				ctx.Add(tterm, map[string]interface{}{"kind": "sibling-scope", "leaf": rel, "uses": uses, "files": files,
+					"observed": tdesc}, true)
+				ctx.Count("kind=sibling-scope")
+				ctx.Count("outcome(sibling)=" + tclass)
+			}
 		}
 	}
 	return nil
